@@ -1,2 +1,203 @@
+//! Position primitives (C15): LineIndex / SourceCode, UniversalNewlineIterator, TextRange/TextSize.
+use crate::dump::jstr;
+use crate::{req_bool, req_str, req_u64};
+use rustpython_parser_vendored::source_location::newlines::{find_newline, Line, NewlineWithTrailingNewline, StrExt, UniversalNewlineIterator};
+use rustpython_parser_vendored::source_location::{LineIndex, OneIndexed, SourceCode};
+use rustpython_parser_vendored::text_size::{TextLen, TextRange, TextSize};
 use serde_json::Value;
-pub fn dispatch(_op: &str, _req: &Value) -> Option<String> { None }
+use std::panic::{catch_unwind, AssertUnwindSafe};
+
+fn rng(r: TextRange) -> String {
+    format!("[{},{}]", u32::from(r.start()), u32::from(r.end()))
+}
+fn orng(r: Option<TextRange>) -> String {
+    r.map(rng).unwrap_or_else(|| "null".into())
+}
+fn guard<F: FnOnce() -> String>(f: F) -> String {
+    match catch_unwind(AssertUnwindSafe(f)) {
+        Ok(s) => s,
+        Err(_) => "\"panic\"".into(),
+    }
+}
+fn line_json(l: &Line) -> String {
+    format!(
+        "{{\"full\":{},\"text\":{},\"start\":{},\"end\":{},\"full_end\":{},\"range\":{},\"full_range\":{},\"full_len\":{},\"deref\":{}}}",
+        jstr(l.as_full_str()),
+        jstr(l.as_str()),
+        u32::from(l.start()),
+        u32::from(l.end()),
+        u32::from(l.full_end()),
+        rng(l.range()),
+        rng(l.full_range()),
+        u32::from(l.full_text_len()),
+        jstr(&**l)
+    )
+}
+fn pair(v: &Value) -> (u32, u32) {
+    (v[0].as_u64().unwrap_or(0) as u32, v[1].as_u64().unwrap_or(0) as u32)
+}
+
+pub fn dispatch(op: &str, req: &Value) -> Option<String> {
+    Some(match op {
+        "line_index" => {
+            let text = req_str(req, "text");
+            let index = LineIndex::from_source_text(text);
+            let code = SourceCode::new(text, &index);
+            let mut o = String::from("{\"locs\":[");
+            let offs: Vec<u32> = req["offsets"].as_array().map(|a| a.iter().map(|x| x.as_u64().unwrap() as u32).collect()).unwrap_or_default();
+            for (i, off) in offs.iter().enumerate() {
+                if i > 0 {
+                    o.push(',');
+                }
+                let off = TextSize::from(*off);
+                o.push_str(&guard(|| {
+                    let l1 = index.line_index(off);
+                    let l2 = code.line_index(off);
+                    let a = index.source_location(off, text);
+                    let b = code.source_location(off);
+                    format!(
+                        "{{\"line\":{},\"line2\":{},\"row\":{},\"col\":{},\"row2\":{},\"col2\":{},\"up_to\":{},\"after\":{}}}",
+                        l1.get(),
+                        l2.get(),
+                        a.row.get(),
+                        a.column.get(),
+                        b.row.get(),
+                        b.column.get(),
+                        code.up_to(off).len(),
+                        code.after(off).len()
+                    )
+                }));
+            }
+            let count = code.line_count();
+            o.push_str(&format!("],\"count\":{},\"starts\":[", count));
+            for (i, s) in index.line_starts().iter().enumerate() {
+                if i > 0 {
+                    o.push(',');
+                }
+                o.push_str(&u32::from(*s).to_string());
+            }
+            o.push_str("],\"lines\":[");
+            // lines 1..=count, plus count+1 (documented: start-of-line position after the last line)
+            for n in 1..=(count + 1) {
+                if n > 1 {
+                    o.push(',');
+                }
+                let line = OneIndexed::new(n as u32).unwrap();
+                o.push_str(&guard(|| {
+                    format!(
+                        "{{\"start\":{},\"end\":{},\"range\":{},\"text\":{}}}",
+                        u32::from(code.line_start(line)),
+                        u32::from(code.line_end(line)),
+                        rng(code.line_range(line)),
+                        jstr(code.line_text(line))
+                    )
+                }));
+            }
+            o.push_str("]}");
+            o
+        }
+        "newline_iter" => {
+            let text = req_str(req, "text");
+            let base = TextSize::from(req_u64(req, "offset") as u32);
+            let ops = req_str(req, "ops");
+            let mut o = String::from("{\"items\":[");
+            if req_bool(req, "trailing") {
+                let mut it = if req_bool(req, "use_from") { NewlineWithTrailingNewline::from(text) } else { NewlineWithTrailingNewline::with_offset(text, base) };
+                for (i, _) in ops.chars().enumerate() {
+                    if i > 0 {
+                        o.push(',');
+                    }
+                    o.push_str(&it.next().map(|l| line_json(&l)).unwrap_or_else(|| "null".into()));
+                }
+            } else {
+                let mut it = if req_bool(req, "use_from") {
+                    UniversalNewlineIterator::from(text)
+                } else if req_bool(req, "use_ext") {
+                    text.universal_newlines()
+                } else {
+                    UniversalNewlineIterator::with_offset(text, base)
+                };
+                for (i, c) in ops.chars().enumerate() {
+                    if i > 0 {
+                        o.push(',');
+                    }
+                    let item = match c {
+                        'f' => it.next(),
+                        'b' => it.next_back(),
+                        _ => {
+                            // 'l': consume with last()
+                            let r = it.last();
+                            o.push_str(&r.map(|l| line_json(&l)).unwrap_or_else(|| "null".into()));
+                            break;
+                        }
+                    };
+                    o.push_str(&item.map(|l| line_json(&l)).unwrap_or_else(|| "null".into()));
+                }
+            }
+            o.push_str("],\"find_newline\":");
+            match find_newline(text) {
+                Some((p, le)) => o.push_str(&format!("[{},{},{}]", p, jstr(le.as_str()), le.len())),
+                None => o.push_str("null"),
+            }
+            o.push('}');
+            o
+        }
+        "range_ops" => {
+            let (a0, a1) = pair(&req["a"]);
+            let (b0, b1) = pair(&req["b"]);
+            let off = TextSize::from(req_u64(req, "off") as u32);
+            let text = req_str(req, "text");
+            let mut o = String::from("{");
+            o.push_str(&format!("\"new_a\":{}", guard(|| rng(TextRange::new(a0.into(), a1.into())))));
+            o.push_str(&format!(",\"at\":{}", guard(|| rng(TextRange::at(a0.into(), a1.into())))));
+            o.push_str(&format!(",\"empty\":{}", guard(|| rng(TextRange::empty(a0.into())))));
+            o.push_str(&format!(",\"up_to\":{}", guard(|| rng(TextRange::up_to(a0.into())))));
+            if a0 <= a1 && b0 <= b1 {
+                let a = TextRange::new(a0.into(), a1.into());
+                let b = TextRange::new(b0.into(), b1.into());
+                o.push_str(&format!(",\"len\":{},\"is_empty\":{}", u32::from(a.len()), a.is_empty()));
+                o.push_str(&format!(",\"contains\":{},\"contains_inclusive\":{}", a.contains(off), a.contains_inclusive(off)));
+                o.push_str(&format!(",\"contains_range\":{}", a.contains_range(b)));
+                o.push_str(&format!(",\"intersect\":{}", guard(|| orng(a.intersect(b)))));
+                o.push_str(&format!(",\"cover\":{}", guard(|| rng(a.cover(b)))));
+                o.push_str(&format!(",\"cover_offset\":{}", guard(|| rng(a.cover_offset(off)))));
+                o.push_str(&format!(",\"checked_add\":{}", guard(|| orng(a.checked_add(off)))));
+                o.push_str(&format!(",\"checked_sub\":{}", guard(|| orng(a.checked_sub(off)))));
+                o.push_str(&format!(",\"add\":{}", guard(|| rng(a + off))));
+                o.push_str(&format!(",\"sub\":{}", guard(|| rng(a - off))));
+                o.push_str(&format!(",\"add_assign\":{}", guard(|| { let mut x = a; x += off; rng(x) })));
+                o.push_str(&format!(",\"sub_assign\":{}", guard(|| { let mut x = a; x -= off; rng(x) })));
+                o.push_str(&format!(",\"ordering\":\"{:?}\"", a.ordering(b)));
+                o.push_str(&format!(",\"sub_start\":{}", guard(|| rng(a.sub_start(off)))));
+                o.push_str(&format!(",\"add_start\":{}", guard(|| rng(a.add_start(off)))));
+                o.push_str(&format!(",\"sub_end\":{}", guard(|| rng(a.sub_end(off)))));
+                o.push_str(&format!(",\"add_end\":{}", guard(|| rng(a.add_end(off)))));
+                o.push_str(&format!(",\"eq\":{}", a == b));
+                o.push_str(&format!(",\"slice\":{}", guard(|| jstr(&text[a]))));
+                o.push_str(&format!(",\"slice_string\":{}", guard(|| jstr(&text.to_string()[a]))));
+                let std_r: std::ops::Range<u32> = a.into();
+                o.push_str(&format!(",\"into_range\":[{},{}]", std_r.start, std_r.end));
+                o.push_str(&format!(",\"from_range\":{}", rng(TextRange::from(TextSize::from(a0)..TextSize::from(a1)))));
+            }
+            // TextSize arithmetic
+            let x = TextSize::from(a0);
+            let y = TextSize::from(b0);
+            o.push_str(&format!(",\"ts_checked_add\":{}", x.checked_add(y).map(|v| u32::from(v).to_string()).unwrap_or("null".into())));
+            o.push_str(&format!(",\"ts_checked_sub\":{}", x.checked_sub(y).map(|v| u32::from(v).to_string()).unwrap_or("null".into())));
+            o.push_str(&format!(",\"ts_add\":{}", guard(|| u32::from(x + y).to_string())));
+            o.push_str(&format!(",\"ts_sub\":{}", guard(|| u32::from(x - y).to_string())));
+            o.push_str(&format!(",\"ts_cmp\":\"{:?}\"", x.cmp(&y)));
+            o.push_str(&format!(",\"ts_to_u32\":{},\"ts_to_usize\":{},\"ts_new\":{}", x.to_u32(), x.to_usize(), u32::from(TextSize::new(a0))));
+            o.push_str(&format!(",\"ts_sum\":{}", guard(|| u32::from([x, y, off].iter().copied().sum::<TextSize>()).to_string())));
+            o.push_str(&format!(",\"text_len\":{},\"ts_of\":{}", u32::from(text.text_len()), u32::from(TextSize::of(text))));
+            o.push_str(&format!(
+                ",\"char_lens\":[{}]",
+                text.chars().map(|c| u32::from(c.text_len()).to_string()).collect::<Vec<_>>().join(",")
+            ));
+            o.push_str(&format!(",\"try_from_usize\":{}", TextSize::try_from(a0 as usize + b0 as usize).map(|v| u32::from(v).to_string()).unwrap_or("null".into())));
+            o.push('}');
+            o
+        }
+        _ => return None,
+    })
+}
